@@ -159,7 +159,7 @@ LinesOK ==
 (***************************************************************************)
 (* Document shapes for the root rule (C02) and pass-through (C03)          *)
 (***************************************************************************)
-Prologs == {"none", "xmldecl", "comment", "pi", "doctype"}
+Prologs == {"none", "xmldecl", "comment", "pi", "doctype", "doctype-public", "doctype-subset", "xmldecl-doctype"}
 KidKinds == {"shape", "text-shape", "nested-ns-svg", "nested-plain-svg", "specs", "g", "comment", "defs", "style"}
 KidLists == UNION {[1..k -> KidKinds] : k \in 0..2}
 \* what else the author wrote on the root: nothing, a prefixed namespace declaration
